@@ -311,11 +311,18 @@ pub mod csv {
         dir_path.join(fname_only)
     }
 
+    // The cache file is never written in place. It is written here first, and
+    // only moved over the real file once it is complete.
+    fn rates_csv_tmp_file_path(dir_path: &std::path::Path, year: u32) -> PathBuf {
+        let fname_only = format!("rates-{}.csv.tmp", year);
+        dir_path.join(fname_only)
+    }
+
     fn open_rates_csv_file_write(
         dir_path: &std::path::Path,
         year: u32,
     ) -> Result<File, SError> {
-        let file_path = rates_csv_file_path(dir_path, year);
+        let file_path = rates_csv_tmp_file_path(dir_path, year);
         crate::util::os::mk_writable_dir(dir_path).map_err(|e| e.to_string())?;
         File::create(file_path).map_err(|e| e.to_string())
     }
@@ -371,6 +378,23 @@ pub mod csv {
             let r = csv_w.flush().map_err(|e| e.to_string());
             #[cfg(feature = "verif_hooks")]
             super::verif_hooks::step("after-flush");
+
+            // The file was written under a temporary name. If we were interrupted
+            // while writing the real cache file in place, a truncated (but still
+            // parsable) file would be left behind, and a row cut off in the middle
+            // of its rate (eg. "2020-03-04,1.3" of "1.3456") would later be read as
+            // a valid, but wrong, rate. Only move the file in place (atomically)
+            // once it is complete and on disk.
+            let r = r.and_then(|_| {
+                let file = csv_w.into_inner().map_err(|e| e.to_string())?;
+                file.sync_all().map_err(|e| e.to_string())?;
+                drop(file);
+                std::fs::rename(
+                    rates_csv_tmp_file_path(&self.dir_path, year),
+                    rates_csv_file_path(&self.dir_path, year),
+                )
+                .map_err(|e| e.to_string())
+            });
             if r.is_ok() {
                 trace!("CsvRatesCache::write_rates flushed ok");
             } else {
